@@ -362,6 +362,10 @@ def gen_gate_tasks(seed: int, tier: str) -> List[Dict[str, Any]]:
         rs = core.derive(seed, PROP, "gate-unreadable", i)
         tasks.append({"kind": "gate_unreadable", "run_seed": rs, "plugin": p, "how": how, "position": "second" if i % 2 else "single",
                       "sub_seed": core.derive(rs, "sub") % 2**40, "prepopulate": i % 3})
+    # a model file that changes between two reads
+    for i, p in enumerate(gw.PLUGINS * (2 if tier == "quick" else 12)):
+        rs = core.derive(seed, PROP, "gate-reread", i)
+        tasks.append({"kind": "gate_reread", "run_seed": rs, "plugin": p, "position": "second" if i % 2 else "single", "sub_seed": core.derive(rs, "sub") % 2**40})
     return tasks
 
 
@@ -506,6 +510,16 @@ def run_gate_class(t: Dict[str, Any]) -> Dict[str, Any]:
     if kind == "valid":
         return _result(t, [], probes, skipped=f"edit for class {cls} kept the document valid")
     probes["violation_class_fired"] += 1
+    if core.derive(t["run_seed"], "deep") % 6 == 0 and isinstance(bad.get("typeAliases"), list):
+        # the violation sits in a document that also holds a (valid) type nested 120-250 levels deep:
+        # validators that give up on deep documents must not let the rest of the document through
+        depth = [120, 150, 200, 250][core.derive(t["run_seed"], "deepn") % 4]
+        node: Dict[str, Any] = {"kind": "base", "name": "string"}
+        for _ in range(depth):
+            node = {"kind": "array", "element": node}
+        bad = copy.deepcopy(bad)
+        bad["typeAliases"].append({"name": "SimDeeplyNestedAlias", "type": node})
+        probes["violation_next_to_deep_nesting"] += 1
     w = gw.World(f"c18g-{t['run_seed']}")
     try:
         tree = None
@@ -577,6 +591,55 @@ def run_gate_unreadable(t: Dict[str, Any]) -> Dict[str, Any]:
     return _result(t, viol, probes, evlog=[t["how"], t["plugin"], t["position"], [v["sig"] for v in viol]])
 
 
+def run_gate_reread(t: Dict[str, Any]) -> Dict[str, Any]:
+    """The model file is rewritten (by someone else) after the generator read it once: if the generator
+    reads it a second time, what it loads is not what it validated.  The pinned tree reads every model
+    file exactly once, so the fault never fires there; when it does fire, the second content is
+    schema-invalid and the command must still fail before any plugin runs."""
+    init()
+    probes = _probes()
+    good = _sub_for_gate(t["sub_seed"])
+    ref = G["ref"]
+    rnd = core.rng(t["run_seed"], "reread")
+    bad = None
+    for _ in range(60):
+        cls = rnd.choice(G["classes"])
+        res = schema.apply_violation(copy.deepcopy(good), ref, cls, rnd)
+        if res is not None and ref.classify(models.dumps(res[0]))[0] != "valid":
+            try:  # only a violation the typed loader itself tolerates can get past a skipped validation
+                _load([res[0]])
+            except Exception:
+                continue
+            bad = res[0]
+            break
+    if bad is None:
+        return _result(t, [], probes, skipped="no violation applicable")
+    w = gw.World(f"c18r-{t['run_seed']}")
+    viol: List[Dict[str, str]] = []
+    try:
+        files = w.write_models("m", [models.dumps(good), models.dumps(good)] if t["position"] == "second" else [models.dumps(good)])
+        alt = w.path("alt.json")
+        alt.write_bytes(models.dumps(bad))
+        target = files[-1]
+        env = gw.env_for(t["run_seed"], "gate", random.Random(t["run_seed"]))
+        res_ = gw.run_generator(w, t["plugin"], str(w.path("out")), str(w.path("td")), files, env,
+                                fault={"on": "reread", "path_suffix": os.path.basename(target), "alt": str(alt)}, root=str(w.base))
+        fired = any(e["ev"] == "fault" and e.get("kind") == "reread_changed" for e in res_["events"])
+        probes["gate_invocations"] += 1
+        if not fired:
+            probes["reread_not_reached"] += 1  # one read per file: nothing to judge
+        else:
+            probes["reread_changed"] += 1
+            ran = [e for e in res_["events"] if e["ev"] == "plugin_code_ran"]
+            if res_["rc"] == 0:
+                viol.append({"sig": "gate:exit-0:changed-after-validation", "msg": f"plugin {t['plugin']}: the model file was read twice and had become schema-invalid in between; the command exited 0"})
+            if ran:
+                viol.append({"sig": "gate:plugin-ran:changed-after-validation", "msg": f"plugin {t['plugin']}: the model file was read twice and had become schema-invalid in between; plugin code ran ({ran[0].get('file')}:{ran[0].get('func')}) on content that was never validated"})
+    finally:
+        w.destroy()
+    return _result(t, viol, probes, evlog=["reread", t["plugin"], t["position"], [v["sig"] for v in viol]])
+
+
 # --------------------------------------------------------------------------------------------
 # history runs (loader clauses in-process, gate for corrupted files)
 # --------------------------------------------------------------------------------------------
@@ -585,7 +648,7 @@ def _probes() -> Dict[str, int]:
     return {k: 0 for k in ["loads", "readbacks", "merges", "merge_files", "compares", "node_compares", "equal_pairs_judged", "unequal_pairs_judged",
                            "annotation_only_pair", "alias_compared", "flip_kept_valid", "fault_schema_invalid", "fault_not_json", "gate_invocations",
                            "gate_prepopulated", "second_file_bad", "violation_class_fired", "edits_applied", "edits_with_rare_kinds", "load_rejected_valid",
-                           "plugin_probe_unavailable", "reloads_same_objects", "first_file_bad", "default_model_bad", "truncation_points", "cli_merge_runs", "cli_merge_repeated_path", "multi_violation_docs", "merged_vs_first_compares", "model_path_symlink_or_dotdot", "model_path_odd_names", "cross_class_compares", "twin_nodes_built", "merge_with_duplicates", "merge_with_empty_section", "merge_same_object_twice", "unreadable_enoent", "unreadable_eio", "unreadable_directory", "metadata_first_file"]}
+                           "plugin_probe_unavailable", "reloads_same_objects", "first_file_bad", "default_model_bad", "truncation_points", "cli_merge_runs", "cli_merge_repeated_path", "multi_violation_docs", "merged_vs_first_compares", "model_path_symlink_or_dotdot", "model_path_odd_names", "violation_next_to_deep_nesting", "cross_class_compares", "twin_nodes_built", "merge_with_duplicates", "merge_with_empty_section", "merge_same_object_twice", "unreadable_enoent", "unreadable_eio", "unreadable_directory", "reread_not_reached", "reread_changed", "metadata_first_file"]}
 
 
 def _result(t: Dict[str, Any], viol: List[Dict[str, str]], probes: Dict[str, int], skipped: Optional[str] = None, evlog: Any = None) -> Dict[str, Any]:
@@ -953,6 +1016,8 @@ def worker_run(t: Dict[str, Any]) -> Dict[str, Any]:
             return run_cli_merge(t)
         if t["kind"] == "gate_multi":
             return run_gate_multi(t)
+        if t["kind"] == "gate_reread":
+            return run_gate_reread(t)
         return run_gate_unreadable(t)
     except core.HarnessError as e:
         return {"run_seed": t.get("run_seed"), "kind": t.get("kind"), "violations": [], "harness": str(e), "probes": {}, "digest": "harness"}
@@ -1166,7 +1231,7 @@ def main(argv: List[str]) -> int:
         "run_kinds": kinds,
         "violation_classes_total": classes_total,
         "violation_classes_fired": classes_fired,
-        "faults_fired": {k: probes.get(k, 0) for k in ["fault_not_json", "fault_schema_invalid", "flip_kept_valid", "second_file_bad", "first_file_bad", "default_model_bad", "truncation_points", "cli_merge_runs", "cli_merge_repeated_path", "multi_violation_docs", "merged_vs_first_compares", "model_path_symlink_or_dotdot", "model_path_odd_names", "cross_class_compares", "twin_nodes_built", "merge_with_duplicates", "merge_with_empty_section", "merge_same_object_twice", "violation_class_fired",
+        "faults_fired": {k: probes.get(k, 0) for k in ["fault_not_json", "fault_schema_invalid", "flip_kept_valid", "second_file_bad", "first_file_bad", "default_model_bad", "truncation_points", "cli_merge_runs", "cli_merge_repeated_path", "multi_violation_docs", "merged_vs_first_compares", "model_path_symlink_or_dotdot", "model_path_odd_names", "violation_next_to_deep_nesting", "cross_class_compares", "twin_nodes_built", "merge_with_duplicates", "merge_with_empty_section", "merge_same_object_twice", "violation_class_fired",
                                                         "unreadable_enoent", "unreadable_eio", "unreadable_directory", "gate_prepopulated"]},
         "probes": probes,
         "skipped": skipped,
